@@ -740,11 +740,22 @@ pub fn gen_program(tape: &[u16], prof: &Profile) -> Program {
         } else {
             t.weighted(&[2, 5, 3, 1][..=max_args.min(3)])
         };
-        let mut cols: Vec<TypeId> = (0..ar).map(|_| t.pick(n_types_total)).collect();
         let plain: Vec<TypeId> = (0..n_types_total)
             .filter(|&x| prof.funcs_into_enums || matches!(types[x].kind, TypeKind::Plain))
             .collect();
-        cols.push(plain[t.pick(plain.len())]);
+        // In the stratified profile most functions go from lower to strictly higher plain types,
+        // so that `!` conclusions are available and the chase still terminates.
+        let upward: Vec<TypeId> = (1..n_types_total).filter(|&x| matches!(types[x].kind, TypeKind::Plain)).collect();
+        let cols = if prof.bang == Bang::Stratified && !upward.is_empty() && t.chance(2, 3) {
+            let res = upward[t.pick(upward.len())];
+            let mut cols: Vec<TypeId> = (0..ar).map(|_| t.pick(res)).collect();
+            cols.push(res);
+            cols
+        } else {
+            let mut cols: Vec<TypeId> = (0..ar).map(|_| t.pick(n_types_total)).collect();
+            cols.push(plain[t.pick(plain.len())]);
+            cols
+        };
         rels.push(RelDecl { name, kind: RelKind::Func, cols });
     }
     let mut p = Program { types, rels, rules: vec![], order: vec![], layout: 0 };
